@@ -364,7 +364,9 @@ class AsyncMachine(Machine):
         super().add_model(model, initial)
         if self.has_queue == 'model':
             for mod in listify(model):
-                self._transition_queue_dict[id(self) if mod is self.self_literal else id(mod)] = deque()
+                key = id(self) if mod is self.self_literal else id(mod)
+                if key not in self._transition_queue_dict:  # a model that is already registered keeps its queue
+                    self._transition_queue_dict[key] = deque()
 
     async def dispatch(self, trigger, *args, **kwargs):
         """Trigger an event on all models assigned to the machine.
